@@ -253,6 +253,15 @@ def build(case, root, rng):
     twin = bytearray(rng.randbytes(HDR))      # <root>/src/<data file name>: same name, other directory
     twin_dir = os.path.join(root, "src")
     twin_rel = os.path.join("src", os.path.basename(dname))
+    # the file behind the "other"-backed tensors: an unrelated name, or a NEAR name in the model's own directory (the model's
+    # stem + ".data", as another tool would call it: m.data beside m.onnx).  The design writes <model file name>.data and no
+    # other file, so such a sibling must survive the save and keep backing its tensors (session 6, seeded C20-m10).
+    base = os.path.basename(mname)
+    stem = base.rsplit(".", 1)[0] if "." in base else base
+    near = [n for n in (stem + ".data", base + ".dat", stem.split(".")[0] + ".data") if n != os.path.basename(dname)]
+    oname = rng.choice(["pre.bin"] + near + near)
+    other_rel = oname if oname == "pre.bin" else os.path.join(os.path.dirname(mname), oname)
+    other_dir = os.path.dirname(os.path.join(root, other_rel))
     for i, kind in enumerate(inits, 1):
         g, back, n = KINDS[kind]
         name = f"t{i}_{kind}"
@@ -278,7 +287,7 @@ def build(case, root, rng):
             if kind in SAME_NAME:
                 buf, loc, bdir = twin, os.path.basename(dname), twin_dir
             elif back == "other":
-                buf, loc, bdir = other, "pre.bin", root
+                buf, loc, bdir = other, oname, other_dir
             else:
                 buf, loc, bdir = dest, os.path.basename(dname), mdir
             t = ir.ExternalTensor(loc, len(buf), n, dtype, shape=ir.Shape(list(arr.shape)), name=name, base_dir=bdir)
@@ -287,7 +296,7 @@ def build(case, root, rng):
         vals.append(v)
         origs.append(t)
         obytes.append(None if t is None else raw)
-    with open(os.path.join(root, "pre.bin"), "wb") as f:
+    with open(os.path.join(root, other_rel), "wb") as f:
         f.write(bytes(other))
     os.makedirs(twin_dir, exist_ok=True)
     with open(os.path.join(root, twin_rel), "wb") as f:
@@ -339,7 +348,7 @@ def build(case, root, rng):
                      opset_imports={"": 18}, name="g")
     model = ir.Model(graph, ir_version=9, producer_name="verif-c20")
     return {"model": model, "vals": vals, "origs": origs, "obytes": obytes, "style": style, "mname": mname, "dname": dname,
-            "old_model": old_model, "dest0": bytes(dest), "roles": {mname: "model", dname: "data", "pre.bin": "other", twin_rel: "other"}}
+            "old_model": old_model, "dest0": bytes(dest), "roles": {mname: "model", dname: "data", other_rel: "other", twin_rel: "other"}, "other_rel": other_rel}
 
 
 # ------------------------------------------------------------------ projection
@@ -502,7 +511,9 @@ def run_case(arg):
             mb = open(mp, "rb").read()
             obs["modelf"] = "old" if (case["stale"] and mb == b["old_model"]) else ("empty" if not mb else "written")
         obs["data_exists"] = os.path.exists(dp)
-        keep = {b["mname"], "pre.bin"}
+        keep = {b["mname"], b["other_rel"]}
+        # files that existed before the call, are neither the model file nor <model file name>.data, and changed or vanished
+        obs["foreign_changed"] = sorted(f for f in disk0 if f not in (b["mname"], b["dname"]) and disk1.get(f) != disk0[f])
         obs["sibling_written"] = sorted(f for f in disk1 if f not in keep and disk0.get(f) != disk1[f]
                                         and os.path.dirname(f) == os.path.dirname(b["mname"]))
         obs["data_size"] = os.path.getsize(dp) if obs["data_exists"] else 0
@@ -599,6 +610,9 @@ def judge(case, obs):
                      + f" no longer hold their original tensor/bytes; {desc}"))
     if not obs["structure_same"]:
         viol.append((None, f"in-memory model changed: {obs.get('structure_diff')}; {desc}"))
+    if obs.get("foreign_changed"):
+        viol.append((None, f"the save changed file(s) that are neither the model file nor its data file: {obs['foreign_changed']} "
+                           f"(files the model's own tensors may be backed by); {desc}"))
 
     # (2) uninitialized initializers are refused before anything is written
     if uninit and out != "refused":
